@@ -108,6 +108,49 @@ def matchURI (u : Uri) (constraint : Str) : MR :=
       if (hasPrefix [91] h && hasSuffix [93] h) || u.isIP then .err
       else matchDomain h constraint
 
+/-! ### the same matchers after `fix:` 41cbd56 = today's `crypto/x509` (go1.23)
+
+  `domainToReverseLabels` now refuses a name with a *leading* period (the 2021 copy dropped the
+  empty first label and treated `.a.example.com` like `a.example.com`). Everything built on it
+  follows: `matchDomainConstraint`, `parseRFC2821Mailbox`, the e-mail and URI matchers. These are
+  the matchers of the engine as it is now *and* of the specification; `matchDomain`, `matchEmail`,
+  `matchURI` above are kept as the historic 2021 versions (`validate2021`). -/
+
+def leadingDot (d : Str) : Bool := d.head? == some 46
+
+/-- `domainToReverseLabels` (engine since 41cbd56, and crypto/x509) -/
+def strictLabels (d : Str) : Option (List Str) := if leadingDot d then none else reverseLabels d
+
+/-- `matchDomainConstraint` (engine since 41cbd56, and crypto/x509) -/
+def specMatchDomain (domain constraint : Str) : MR :=
+  if constraint.isEmpty then .yes
+  else if leadingDot domain then .err
+  else if leadingDot (if constraint.head? = some 46 then constraint.tail else constraint) then .err
+  else matchDomain domain constraint
+
+/-- `parseRFC2821Mailbox` (the domain goes through `domainToReverseLabels`) -/
+def specParseMailbox (a : Str) : Option Mailbox :=
+  match parseMailbox a with
+  | none => none
+  | some mb => if leadingDot mb.domain then none else some mb
+
+def specMatchEmail (mb : Mailbox) (constraint : Str) : MR :=
+  if has 64 constraint then
+    match specParseMailbox constraint with
+    | none => .err
+    | some cm => if mb.loc = cm.loc && foldEq mb.domain cm.domain then .yes else .no
+  else specMatchDomain mb.domain constraint
+
+def specMatchURI (u : Uri) (constraint : Str) : MR :=
+  if u.host.isEmpty then .err
+  else
+    let needSplit := has 58 u.host && !hasSuffix [93] u.host
+    if needSplit && u.split.isNone then .err
+    else
+      let h := if needSplit then u.split.getD [] else u.host
+      if (hasPrefix [91] h && hasSuffix [93] h) || u.isIP then .err
+      else specMatchDomain h constraint
+
 /-! ### checkNameConstraints -/
 
 /-- first loop: excluded constraints in order -/
@@ -196,21 +239,48 @@ def firstBad {α : Type} (f : α → Verdict) : List α → Verdict
     | .allow => firstBad f as
     | v => v
 
-def checkDNS (e : Engine) (d : Str) : Verdict := (checkName (matchDomain d) e.pDNS e.xDNS).verdict .dns
+def checkDNS (e : Engine) (d : Str) : Verdict := (checkName (specMatchDomain d) e.pDNS e.xDNS).verdict .dns
 def checkIP (e : Engine) (i : List Nat) : Verdict := (checkName (matchIP i) e.pIP e.xIP).verdict .ip
 def checkEmail (e : Engine) (a : Str) : Verdict :=
-  match parseMailbox a with
+  match specParseMailbox a with
   | none => .errRfc822
-  | some mb => (checkName (matchEmail mb) e.pEmail e.xEmail).verdict .email
-def checkURI (e : Engine) (u : Uri) : Verdict := (checkName (matchURI u) e.pURI e.xURI).verdict .uri
+  | some mb => (checkName (specMatchEmail mb) e.pEmail e.xEmail).verdict .email
+def checkURI (e : Engine) (u : Uri) : Verdict := (checkName (specMatchURI u) e.pURI e.xURI).verdict .uri
 
-/-- `Engine.Validate` (a nil engine is an engine without constraints) -/
-def validate (e : Engine) (n : Names) : Verdict :=
-  if !e.has then .allow
-  else match firstBad (checkDNS e) n.dns with
+/-- the loop added by `fix:` 41cbd56: with any constraint present, a dNSName that
+    `domainToReverseLabels` cannot parse is refused (ConstraintError "cannot parse dnsName") -/
+def preParse (n : Names) : Verdict :=
+  firstBad (fun d => if (strictLabels d).isNone then .deny .matchErr .dns else .allow) n.dns
+
+/-- the four loops of `Validate` over the flat lists -/
+def validateCore (e : Engine) (n : Names) : Verdict :=
+  match firstBad (checkDNS e) n.dns with
   | .allow => match firstBad (checkIP e) n.ips with
     | .allow => match firstBad (checkEmail e) n.emails with
       | .allow => firstBad (checkURI e) n.uris
+      | v => v
+    | v => v
+  | v => v
+
+/-- `Engine.Validate` of an engine without `perCert` engines (a nil engine is an engine without
+    constraints): this is what a per-certificate engine `New(crt)` runs, and all of `Validate`
+    before 4a0d6e3 -/
+def validate (e : Engine) (n : Names) : Verdict :=
+  if !e.has then .allow
+  else match preParse n with
+  | .allow => validateCore e n
+  | v => v
+
+/-! ### historic: the flat engine before 41cbd56 (2021 matchers, no dNSName pre-parse) -/
+
+def validate2021 (e : Engine) (n : Names) : Verdict :=
+  if !e.has then .allow
+  else match firstBad (fun d => (checkName (matchDomain d) e.pDNS e.xDNS).verdict .dns) n.dns with
+  | .allow => match firstBad (checkIP e) n.ips with
+    | .allow => match firstBad (fun a => match parseMailbox a with
+          | none => Verdict.errRfc822
+          | some mb => (checkName (matchEmail mb) e.pEmail e.xEmail).verdict .email) n.emails with
+      | .allow => firstBad (fun u => (checkName (matchURI u) e.pURI e.xURI).verdict .uri) n.uris
       | v => v
     | v => v
   | v => v
@@ -238,8 +308,11 @@ def NewF (chain : List Level) : EngineF :=
     chain order and the first refusal is returned; otherwise the flat lists are used -/
 def validateF (e : EngineF) (n : Names) : Verdict :=
   if !e.flat.has then .allow
-  else if !e.perCert.isEmpty then firstBad (fun c => validate c n) e.perCert
-  else validate e.flat n
+  else match preParse n with
+  | .allow =>
+    if !e.perCert.isEmpty then firstBad (fun c => validate c n) e.perCert
+    else validateCore e.flat n
+  | v => v
 
 /-! ### chain assembly (authority.go `init`) -/
 
@@ -286,47 +359,11 @@ def authorityValidateF (ints roots : List Cert) (n : Names) : Verdict :=
 /-! ### specification: RFC 5280 §6.1.4 (g), every certificate of the path on its own
 
   Subtree membership is the one of today's `crypto/x509` (go1.23), which is what relying parties
-  run. It differs from the engine's 2021 copy in two places, both modelled:
-  * `domainToReverseLabels` now refuses a name with a *leading* period (the copy drops the empty
-    first label and treats `.a.example.com` like `a.example.com`);
-  * `matchIPConstraint` compares address families as encoded (4 against 4, 16 against 16
-    octets); the copy first rewrites an IPv4-mapped IPv6 *subtree* to IPv4 and then reads the
-    first four octets of its 16-octet mask. -/
-
-def leadingDot (d : Str) : Bool := d.head? == some 46
-
-/-- today's `domainToReverseLabels` -/
-def strictLabels (d : Str) : Option (List Str) := if leadingDot d then none else reverseLabels d
-
-/-- today's `matchDomainConstraint` -/
-def specMatchDomain (domain constraint : Str) : MR :=
-  if constraint.isEmpty then .yes
-  else if leadingDot domain then .err
-  else if leadingDot (if constraint.head? = some 46 then constraint.tail else constraint) then .err
-  else matchDomain domain constraint
-
-/-- today's `parseRFC2821Mailbox` (the domain goes through `domainToReverseLabels`) -/
-def specParseMailbox (a : Str) : Option Mailbox :=
-  match parseMailbox a with
-  | none => none
-  | some mb => if leadingDot mb.domain then none else some mb
-
-def specMatchEmail (mb : Mailbox) (constraint : Str) : MR :=
-  if has 64 constraint then
-    match specParseMailbox constraint with
-    | none => .err
-    | some cm => if mb.loc = cm.loc && foldEq mb.domain cm.domain then .yes else .no
-  else specMatchDomain mb.domain constraint
-
-def specMatchURI (u : Uri) (constraint : Str) : MR :=
-  if u.host.isEmpty then .err
-  else
-    let needSplit := has 58 u.host && !hasSuffix [93] u.host
-    if needSplit && u.split.isNone then .err
-    else
-      let h := if needSplit then u.split.getD [] else u.host
-      if (hasPrefix [91] h && hasSuffix [93] h) || u.isIP then .err
-      else specMatchDomain h constraint
+  run. Since 41cbd56 the engine's DNS, e-mail and URI matchers are the same functions
+  (`specMatchDomain`, `specParseMailbox`, `specMatchEmail`, `specMatchURI` above). One difference
+  is left: `matchIPConstraint` of crypto/x509 compares address families as encoded (4 against 4,
+  16 against 16 octets); the engine's copy first rewrites an IPv4-mapped IPv6 *subtree* to IPv4
+  and then reads the first four octets of its 16-octet mask (known finding F3). -/
 
 /-- membership of an iPAddress in a subtree as RFC 5280 §4.2.1.10 defines it: same address
     family (4 against 4 octets, 16 against 16), equal under the mask. No re-interpretation of
